@@ -156,7 +156,7 @@ def run_cvc5(smt2, timeout_s=20):
 
 
 def verify_function(world, func_name, setup, run, ensures, props, contracts=None, allow_raises=(),
-                    describe_args=None, check_frame=True, cover=None, timeout_ms=10000, prop_map=None):
+                    describe_args=None, check_frame=True, cover=None, timeout_ms=10000, prop_map=None, only_prop=None):
     """ensures(it, args, result) -> list of (clause name, [property ids], Bool term)
     returns (list of Obligation, info)"""
     t0 = time.time()
@@ -215,6 +215,8 @@ def verify_function(world, func_name, setup, run, ensures, props, contracts=None
             safety.status = "unsupported"
             safety.detail = "contract: %s" % e
         for name, pids, goal in clauses:
+            if only_prop is not None and only_prop not in pids:
+                continue
             o = ob(name, pids)
             o.paths += 1
             if o.status == "failed":
